@@ -111,6 +111,7 @@ func c15Prop(rt *rapid.T, rec *ev.Recorder) {
 		caughtFin  uint64 // the finalized block of that streak
 		forkSalt   byte
 		reorgs     int
+		delivered  []uint64 // blocks recorded by the store
 	)
 	chain.Hook = func(ch *fakechain.Chain, call fakechain.Call) error {
 		if call.Method == "HeaderByNumber" {
@@ -164,7 +165,13 @@ func c15Prop(rt *rapid.T, rec *ev.Recorder) {
 				if err := store.VerifReorg(bg, f); err != nil {
 					fatal(rt, "INCONCLUSIVE: store refused a reorg: %v", err)
 				}
-				processed = f - 1
+				for len(delivered) > 0 && delivered[len(delivered)-1] >= f {
+					delivered = delivered[:len(delivered)-1]
+				}
+				processed = 0
+				if len(delivered) > 0 {
+					processed = delivered[len(delivered)-1]
+				}
 			}
 			nNew := int(tip-f) + 1 + rapid.IntRange(0, 2).Draw(rt, "forkGrowth")
 			var suffix [][]types.Log
@@ -206,12 +213,18 @@ func c15Prop(rt *rapid.T, rec *ev.Recorder) {
 			chain.SetPointers(chain.Tip(), chain.Tip(), finalized)
 			trace = append(trace, fmt.Sprintf("fin=%d", finalized))
 		case "sync":
+			// like the real downloader, the syncer hands over the blocks that carry events and the last block of the range
+			// it fetched; the event-less blocks in between are never recorded
 			k := rapid.IntRange(1, 4).Draw(rt, "k")
 			for i := 0; i < k && len(pending) > 0; i++ {
-				if err := store.VerifProcessBlock(bg, pending[0]); err != nil {
-					fatal(rt, "INCONCLUSIVE: store refused a valid block: %v", err)
+				last := i == k-1 || len(pending) == 1
+				if len(pending[0].Events) > 0 || last {
+					if err := store.VerifProcessBlock(bg, pending[0]); err != nil {
+						fatal(rt, "INCONCLUSIVE: store refused a valid block: %v", err)
+					}
+					processed = pending[0].Num
+					delivered = append(delivered, processed)
 				}
-				processed = pending[0].Num
 				pending = pending[1:]
 			}
 			trace = append(trace, fmt.Sprintf("sync=%d", processed))
